@@ -1221,6 +1221,7 @@ class Interp:
         return d
 
     def hashable(self, k):
+        k = self.resolve(k)
         if isinstance(k, (str, int, bool, Fraction, tuple, type(None))):
             return k
         if isinstance(k, SAtom):
